@@ -414,6 +414,24 @@ def check_default(run, eo, lab, da, lfi):
         want = run.exp[lfi].header_id
         if da.values != [want]:
             run.v('C05', 'default-value', 'default:FILE-ID', f'{da.values!r} != {want!r}')
+    elif eo.op in ('parameter', 'computation') and lab == 'DIMENSION':
+        # derived from the shape of one sample of VALUES ([1] for a flat list)
+        vspec = run.spec['ops'][eo.op_index].get('attrs', {}).get('values')
+        if vspec is not None and not any(o.get('op') == 'assign' and o.get('target') == eo.op_index for o in run.spec['ops']):
+            val, _, _ = expect.interpret(eo.op, 'values', vspec)
+            if isinstance(val, dict) and '$tuple' in val:
+                val = val['$tuple']
+            if isinstance(val, list) and val:
+                dims = []
+                x = val[0]
+                while isinstance(x, list):
+                    dims.append(len(x))
+                    x = x[0] if x else None
+                want = dims or [1]
+                if da.values != want:
+                    run.v('C05', 'default-value', 'default:DIMENSION', f'{eo.set_type} {eo.name!r}: DIMENSION {da.values!r}, one sample of VALUES has shape {want}')
+                else:
+                    run.obs['default-DIMENSION-checked'] += 1
     elif eo.op == 'channel' and lab == 'LONG-NAME':
         if da.values != [eo.name]:
             run.v('C05', 'default-value', 'default:LONG-NAME', f'{da.values!r} != {eo.name!r}')
